@@ -683,6 +683,26 @@ theorem C01_end_to_end_plain (cx : Codecs) (debug validate : Bool) (depth : Nat)
   rw [this]
   exact ⟨want (cutMsgs (ms.drop k) mb.toNat) o, by simp, C01_plain_reply_conforms ms k mb.toNat o hk1⟩
 
+/-- **a reply that answers what a single-partition fetch asked leaves nothing half done**: when the book-keeping loop
+    stops with an error on a reply holding one partition, the consumer state reached is the state before the loop — the
+    `MessageSizeTooLarge` report changes no fetch offset, size or retry entry -/
+theorem C01_size_error_neutral_single (normalMax : Int) (n : Nat) (single : Bool) (c : Consumer) (t : Bytes) (p : FetchPartition)
+    (e : Err) (h : (processAll normalMax n single [(t, p)] c false).1 = .err e) :
+    processAllReached normalMax n single [(t, p)] c = c := by
+  simp only [processAll, processAllReached] at h ⊢
+  cases htr : topicRef c.assignments t with
+  | none => simp
+  | some tr =>
+    simp only [htr] at h ⊢
+    cases hpp : processPartition normalMax n single c tr p with
+    | mk o got =>
+      cases o with
+      | ok c' => simp [hpp, processAll] at h
+      | err e' => simp
+      | panic s => simp
+      | diverge => simp
+
+
 end Kafka.Props.C01
 
 /-! ## end to end for compressed and nested logs -/
